@@ -20,6 +20,9 @@ theorem check_null (w : Nat) (t : Ty) (p : String) : check w t .null p = none :=
 theorem check_u32 (w n : Nat) (p : String) (h : n ≤ U32MAX) : check w .u32 (.nat n) p = none := by
   simp [check, isU32, JNum.ofNat, h]
 
+theorem check_u64 (w n : Nat) (p : String) (h : n ≤ U64MAX) : check w .u64 (.nat n) p = none := by
+  simp [check, isU64, JNum.ofNat, h]
+
 theorem check_optNat_u32 (w : Nat) (o : Option Nat) (p : String) (h : ∀ n, o = some n → n ≤ U32MAX) :
     check w .u32 (optNat o) p = none := by
   cases o with
@@ -354,9 +357,9 @@ theorem check_unloadedJson (pw : PW) (ci : List (String × String))
     simp [checkFields, getKV_insertKV, getKV, check_hexA pw m.base _ (by omega),
       check_hexA pw (m.base + m.size) _ (by omega)]
 
-theorem check_handleJson (w : Nat) (h : HandleM) (hh : h.handle ≤ U32MAX) (p : String) :
-    check w (.obj [("handle", .u32), ("type_name", .str), ("object_name", .str)]) (handleJson h) p = none := by
-  simp [handleJson, checkFields_mkObj, checkFields, getKV_insertKV, getKV, check_u32 _ _ _ hh]
+theorem check_handleJson (w : Nat) (h : HandleM) (hh : h.handle ≤ U64MAX) (p : String) :
+    check w (.obj [("handle", .u64), ("type_name", .str), ("object_name", .str)]) (handleJson h) p = none := by
+  simp [handleJson, checkFields_mkObj, checkFields, getKV_insertKV, getKV, check_u64 _ _ _ hh]
 
 theorem check_systemInfo (w : Nat) (s : SysInfo) (hos : ∀ v, s.os ≠ .unknown v)
     (hc : s.cpuCount ≤ U32MAX) (hm : ∀ n, s.microcode = some n → n ≤ U64MAX) (p : String) :
